@@ -1758,7 +1758,7 @@ def rule_fill_loops_end(out, tier):
 def rule_stream_reads_counted(out, tier):
     rid = "CB5"
     out.rule(rid, "coded_stream.h CodedInputStream: after every call that consumes input from stream_ (read, ignore, get, getline, readsome, seekg, peek) the number of bytes actually obtained "
-                  "(stream_.gcount()) or the stream state (fail/eof/good) is taken on every path before "
+                  "(stream_.gcount()) or the failure state (fail(), operator!) is taken on every path before "
                   "the method returns — a read or skip whose outcome is never looked at cannot notice that the stream ended inside the requested range", 1)
     roots, rc, err = dump(out.repo, "coded_stream.h")
     rel = BIN + "/coded_stream.h"
@@ -1792,8 +1792,8 @@ def rule_stream_reads_counted(out, tier):
                 if kind == "call" and re.search(r"stream_\.(read|ignore|get|getline|readsome|seekg|peek)\(", u):
                     has_read = True
                     pending = True
-                elif "gcount()" in u or re.search(r"stream_\.(fail|eof|good|bad)\(\)|!stream_\b", u):
-                    pending = False
+                elif "gcount()" in u or re.search(r"stream_\.fail\(\)|!stream_\b", u):
+                    pending = False  # eof()/good() do not say how much was obtained: a short read sets them and nothing else happens
             if pending and q.outcome != "throw":
                 bad = True
         if has_read:
